@@ -1,7 +1,7 @@
 (** Entry points of the SHACL document model (table glue).
 
     [shacl_doc]        input: the table of [pipe_shexc] (Model/EntryPipe.v); the model
-                       runs the extraction ([Run.run_shapes], binary64) and hands the
+                       runs the extraction ([RunCur.run_shapes_cur], binary64) and hands the
                        shapes to [ShaclDoc.shacl_graph].
     [shacl_doc_shapes] input: a shape list written out row by row (serialiser level,
                        faults and [detect_minimal_iri] included):
@@ -18,7 +18,7 @@
                        kinds: "I" IRI, "B" blank node (position path "i.k.j"), "L" literal. *)
 From Coq Require Import List Ascii String ZArith NArith Bool.
 From Shexer Require Import Lib.PyStr Lib.Dict Gen.Consts Spec.Rdf Model.Table Model.Tracker Model.Profiler
-     Model.Tokens Model.Freq Model.FreqInst Model.Shexing Model.Run Model.EntryPipe Model.EntryC11
+     Model.Tokens Model.Freq Model.FreqInst Model.Shexing Model.Run Model.RunCur Model.EntryPipe Model.EntryC11
      Spec.ConstraintSpec Spec.ShaclGraphSpec Model.SerialShacl Model.ShaclDoc.
 Import ListNotations.
 
@@ -76,7 +76,7 @@ Definition output_rows (z : dcfg) (ns : nsdict) (tau : str) (shapes : list shape
 
 Definition shacl_doc_pipe (t : table) : table :=
   let c := rcfg_of t in
-  match run_shapes BAlg c (thr_of t) (graph_of t) with
+  match run_shapes_cur BAlg c (thr_of t) (graph_of t) with
   | inr e => [[Str "runerr"; rerr_str e]]
   | inl (ns, shapes) => output_rows no_patterns ns (r_tau c) shapes
   end.
